@@ -535,7 +535,7 @@ func TestVerif_C09(t *testing.T) {
 		fmt.Printf("INCONCLUSIVE property=C09 reason=too few refresh / TTL / Max-Age observations (%d, %d, %d)\n", run.Counter("refresh_reissues"), run.Counter("redis_ttl_checks"), run.Counter("maxage_checks"))
 		t.Fail()
 	}
-	run.Finish(int64(run.Env.Pick(2200, 6000)), run.Env.Pick(95, 120))
+	run.Finish(int64(run.Env.Pick(2200, 12000)), run.Env.Pick(95, 160))
 }
 
 // ---------------------------------------------------------------------------------------------------------
@@ -702,15 +702,16 @@ func c09RefreshHistories(c *c09Ctx, insts []*c09Inst) []*c09Cred {
 // phase C: follow the credentials in real time across their thresholds
 
 func c09Timeline(c *c09Ctx, creds []*c09Cred) {
-	total := time.Duration(c.run.Env.Pick(7, 9)) * time.Second
 	fracs := []time.Duration{40 * time.Millisecond, 500 * time.Millisecond, 960 * time.Millisecond}
 	if c.run.Env.Thorough() {
 		fracs = []time.Duration{20 * time.Millisecond, 250 * time.Millisecond, 500 * time.Millisecond, 750 * time.Millisecond, 980 * time.Millisecond}
 	}
-	start := time.Now()
+	// a fixed NUMBER of ticks (7 resp. 9 seconds' worth), each waiting for the next of the sub-second marks: just before,
+	// just after and between the whole-second thresholds. On a slow machine the ticks spread out; every verdict is bracketed.
+	ticks := c.run.Env.Pick(7, 9) * len(fracs)
 	chn := 0
 	added := 0
-	for time.Since(start) < total { // NB: the duration bounds the workload only; every verdict is bracketed
+	for tick := 0; tick < ticks; tick++ {
 		now := time.Now()
 		sec := now.Truncate(time.Second)
 		var next time.Time
@@ -728,7 +729,15 @@ func c09Timeline(c *c09Ctx, creds []*c09Cred) {
 		n := len(creds)
 		for i := 0; i < n; i++ {
 			cr := creds[i]
-			// only credentials near one of their thresholds are interesting; others every few ticks
+			// credentials far from both of their thresholds are only probed on every fourth tick (keeps the ticks short, so
+			// that the probes of the others happen close to the intended sub-second marks)
+			if tick%4 != 0 {
+				t := time.Now()
+				dE, dF := t.Sub(cr.S.Add(cr.Sess.In.Expire)), t.Sub(cr.S.Add(-c09Future))
+				if (dE < -12*time.Second || dE > 12*time.Second) && (dF < -12*time.Second || dF > 12*time.Second) {
+					continue
+				}
+			}
 			chn++
 			res := c.probe(cr, c09Channels[chn%len(c09Channels)], nil)
 			if res.Outcome == "other" {
